@@ -36,7 +36,8 @@ RULE = (
     'ecdh_lifted: arbitrary on-curve points obtained by lifting x (incl. x=0). invalid_key: random '
     'pairs, on-curve x with y+-1, (0,0), y=0, swapped, negated x, twist points, coordinates >= p. '
     'rpa: the real Address.generate_private_address (its entropy fed from Hypothesis through the '
-    "toolbox's `secrets`) and smp.AddressResolver, generation and resolution each on either back end. "
+    "toolbox's `secrets`; a few cases per run use the operating system's entropy and record the address) "
+    'and smp.AddressResolver, generation and resolution each on either back end. '
     'non-trivial = some input byte/scalar is not zero; distinct by (function, argument bytes).'
 )
 ASSUMPTIONS = [
@@ -249,7 +250,7 @@ def differential(ctx, fn_name: str, outs: dict, case: dict) -> bool:
     """Judge the outcomes of one function on both back ends. True if they agree on a value."""
     (k_lib, v_lib), (k_bi, v_bi) = outs['lib'], outs['builtin']
     if k_lib == 'ok' and k_bi == 'ok':
-        if v_lib == v_bi and type(v_lib) is type(v_bi):
+        if _norm(v_lib) == _norm(v_bi):
             return True
         ctx.fail(
             f'diff/{fn_name}',
@@ -271,6 +272,15 @@ def differential(ctx, fn_name: str, outs: dict, case: dict) -> bool:
         case,
     )
     return False
+
+
+def _norm(v):
+    """bytes-like values compare by content (bytes vs bytearray is not a disagreement)."""
+    if isinstance(v, (bytes, bytearray, memoryview)):
+        return bytes(v)
+    if isinstance(v, (tuple, list)):
+        return tuple(_norm(x) for x in v)
+    return v
 
 
 def _show(v) -> str:
